@@ -293,6 +293,16 @@ func HAfterFailedDecode() {
 	nd.Reach("end")
 }
 
+// HScale: concrete values far beyond the symbolic shapes in one dimension: lists and maps of 1100
+// entries of one kind (more than the decoder's default depth limit, more than any internal
+// buffer), nesting 40 deep, and keys whose order differs between UTF-8 bytes, UTF-16 code units
+// and code points. One concrete path each; the round trip is exact.
+func HScale() {
+	v := gen.Scale(nd.Choose("case", gen.ScaleCases), nd.Param("N", 1100))
+	roundTrip(v, gen.MustBuild(v), false, true)
+	nd.Reach("end")
+}
+
 // HDeterministic: two insertion orders and two implementations of the same value give the same bytes.
 func HDeterministic() {
 	c := &ctx{}
